@@ -829,7 +829,7 @@ def build_cdriver(cli):
     newest = max(os.path.getmtime(src), os.path.getmtime(lib))
     if not os.path.exists(out) or os.path.getmtime(out) < newest:
         tmp = out + ".%d" % os.getpid()
-        p = subprocess.run(["gcc", "-O1", "-g", "-rdynamic", src, "-I/repo/bindings/c", "-L" + cli["libdir"], "-ljsonnet",
+        p = subprocess.run(["gcc", "-O1", "-g", "-rdynamic", src, "-I" + os.path.join(runner.REPO, "bindings/c"), "-L" + cli["libdir"], "-ljsonnet",
                             "-Wl,-rpath," + cli["libdir"], "-o", tmp], capture_output=True)
         if p.returncode != 0:
             raise runner.Broken("cdriver build failed: " + p.stderr.decode()[:2000])
